@@ -1,7 +1,7 @@
 """Shared exploration for the destination typestate rules (C03, C04, C08-ordering): one DFlags run per destination-writing function."""
 import fnmatch
 from ..lin import Lin
-from ..ir import exit_line
+from ..ir import exit_line, exit_message
 from ..pathflags import Engine, BudgetExceeded, run_adaptive
 from ..flags import DFlags
 from .. import api
@@ -10,7 +10,7 @@ from .c05 import convention, STATUS_OK, describe, ASSUME_QUIET, OPAQUE
 # functions with a (dest, dmax) pair that are NOT destination writers (queries, tokenizers, erase-only handled elsewhere)
 NOT_WRITERS_HINT = ("cmp", "chr", "str_s", "spn", "pbrk", "prefix", "first", "last", "stris", "nlen", "tok_s", "coll", "natcmp", "casestr", "timingsafe", "bsearch", "qsort")
 
-DEST_ALIASES = {"_wcslwr_s_chk": ("src", "slen"), "_wcsupr_s_chk": ("src", "slen")}
+DEST_ALIASES = {"_wcslwr_s_chk": ("src", "slen"), "_wcsupr_s_chk": ("src", "slen"), "safec_vsnprintf_s": ("buffer", "bufsize")}
 
 
 def roles(fn):
@@ -71,6 +71,15 @@ def explore(prog, name, budget=300000):
                     break
             if plugin.destbos is not None and eng.decide(("cmp", "ugt", plugin.dmax.scale(plugin.unit), plugin.destbos), facts) is True:
                 ex.append("dmax-above-object")
+        if "out" in fn.pnames:
+            # the formatter writes into `buffer` only through the buffer output callback
+            po = Lin.atom("&" + fn.pnames["out"]["id"])
+            isbuf = None
+            for a_ in facts.atoms():
+                if a_.startswith("&@fn:safec_out_buffer"):
+                    isbuf = eng.decide(("cmp", "eq", po, Lin.atom(a_)), facts)
+            if isbuf is not True:
+                ex.append("not-known-to-be-buffer-output")
         for zn in ("slen", "n", "count", "len"):
             zp = fn.pnames.get(zn)
             if zp is not None and zp["ty"] == "i64" and zn != m and not dirty:
@@ -94,11 +103,12 @@ def explore(prog, name, budget=300000):
         elif conv == "ptr" and rv is not None and rv[0] == "p":
             err = True if rv[1] == "null" else (False if eng.decide(("cmp", "eq", eng.as_lin(rv), Lin.const(0)), facts) is False else None)
         line = exit_line(fn, path)
-        key = (d_, err, dirty, c1, cf, nul, tuple(ex))
+        msg = exit_message(fn, path)
+        key = (d_, err, dirty, c1, cf, nul, tuple(ex), msg)
         if key in seen:
             continue
         seen.add(key)
-        outs.append(dict(ret=d_, err=err, dirty=dirty, clr_first=c1, clr_full=cf, nul=nul, exempt=ex, line=line, path=path[-10:] if path else None))
+        outs.append(dict(ret=d_, err=err, dirty=dirty, clr_first=c1, clr_full=cf, nul=nul, exempt=ex, line=line, msg=msg, path=path[-10:] if path else None))
     return dict(outcomes=outs, n_paths=len(res), states=eng.nstates, conv=conv, file=fn.file, unit=plugin.unit, precision=eng.precision)
 
 
